@@ -139,6 +139,70 @@ theorem bms_times_partial (g : Array Rat) (M : Rat) (hM : 0 < M) (c0 : BcSnap) (
         · exact Or.inr ⟨h, h2⟩
     exact lookupOffset_eq_timeAtAux M hM q (hq q hqm).2 rest 0 c0 hc0 hrest hch hle
 
+/-- a tempo change as the 4/4 reader builds it: metronome 4, normalised position, positive tempo -/
+def bmsChange (c : BcSnap) : Bool :=
+  decide (c.met = 4) && decide (c.snap.met = some 4) && decide (0 < c.bpm) && decide (0 ≤ c.snap.measure) &&
+  decide (0 ≤ c.snap.beat) && decide (c.snap.beat < 4)
+
+theorem bmsChange_wf {c : BcSnap} (h : bmsChange c = true) : wfChange c = true ∧ c.met = 4 := by
+  simp only [bmsChange, Bool.and_eq_true, decide_eq_true_eq] at h
+  obtain ⟨⟨⟨⟨⟨h1, h2⟩, h3⟩, h4⟩, h5⟩, h6⟩ := h
+  refine ⟨?_, h1⟩
+  simp only [wfChange, Bool.and_eq_true, decide_eq_true_eq, h1, h2, h3, h4, h5, h6, and_true, true_and]
+  decide
+
+theorem metronomeOk_of_const (cs : List BcSnap) (h : ∀ c ∈ cs, c.met = 4) : metronomeOk cs = true := by
+  induction cs with
+  | nil => rfl
+  | cons a t ih =>
+    cases t with
+    | nil => rfl
+    | cons b r =>
+      simp only [metronomeOk, Bool.and_eq_true, Bool.or_eq_true, decide_eq_true_eq]
+      exact ⟨Or.inl ((h a (by simp)).trans (h b (by simp)).symm), ih (fun c hc => h c (by simp [hc]))⟩
+
+/-- **`TimingMap.offsets` on a 4/4 BMS tempo list = piecewise-linear integration of beat length.**
+
+For every ascending list `cs` of reader-built tempo changes that starts at measure 0 beat 0 and is
+grid-compatible on the shipped grid of 96 (¬D22) — no re-derivation hypothesis — `from_bpm_changes_snap(0, cs,
+reseat=False)` succeeds and `TimingMap.offsets`, exactly as the model runs it (its own `stableArgsort`, the
+backwards sweep, the un-permutation), answers every list of queries at non-negative positions (any order,
+duplicates) with `timeAt 0 cs`.  (`bms_times_partial`'s hypothesis `hst` discharged by C10's `bcsOfBco_rederive`
+through `offsets_correct_fromBcSnap`; the sorting permutation by `stableArgsort_sortsAsc`.) -/
+theorem bms_times (cs : List BcSnap) (hall : cs.all bmsChange = true) (hs : sortedSnaps cs = true)
+    (h0 : firstAtZero cs = true) (hgc : gridCompatible (grid defaultMaxDiv) cs = true)
+    (qs : List Snap) (hq : ∀ q ∈ qs, 0 ≤ q.measure ∧ 0 ≤ q.beat) :
+    ∃ tm, fromBcSnap 0 cs false = .ok tm ∧ offsets defaultGrid tm qs = .ok (qs.map (timeAt 0 cs)) := by
+  have hwf : wfChanges cs = true := by
+    simp only [wfChanges, List.all_eq_true] at hall ⊢
+    exact fun c hc => (bmsChange_wf (hall c hc)).1
+  have hm : metronomeOk cs = true :=
+    metronomeOk_of_const cs (fun c hc => (bmsChange_wf (List.all_eq_true.mp hall c hc)).2)
+  have hqok : ∀ q ∈ qs, queryOk cs q = true := by
+    intro q hqm
+    cases cs with
+    | nil => simp [firstAtZero] at h0
+    | cons c rest =>
+      simp only [firstAtZero, Bool.and_eq_true, decide_eq_true_eq] at h0
+      have := hq q hqm
+      simp only [queryOk, Snap.le, Snap.lt, Snap.eqv, h0.1, h0.2, Bool.and_eq_true, Bool.or_eq_true, decide_eq_true_eq]
+      refine ⟨?_, this.2⟩
+      rcases lt_or_eq_of_le this.1 with h | h
+      · exact Or.inl (Or.inl h)
+      · rcases lt_or_eq_of_le this.2 with h2 | h2
+        · exact Or.inl (Or.inr ⟨h, h2⟩)
+        · exact Or.inr ⟨h, h2⟩
+  have hgc' : gridCompatible defaultGrid.toList cs = true := by simpa [defaultGrid] using hgc
+  obtain ⟨tm, h1, h2⟩ := offsets_correct_fromBcSnap defaultGrid (gridOK_grid (by decide)) 0 cs hwf hs h0 hgc' hm
+    (stableArgsort Snap.lt qs) qs (stableArgsort_sortsAsc qs) hqok
+  exact ⟨tm, h1, h2⟩
+
+/-- non-vacuity of `bms_times`: header tempo, a change inside measure 1, a change on measure line 3 -/
+example :
+    let cs : List BcSnap := [⟨120, 4, ⟨0, 0, some 4⟩⟩, ⟨60, 4, ⟨1, 3 / 2, some 4⟩⟩, ⟨133, 4, ⟨3, 0, some 4⟩⟩]
+    cs.all bmsChange = true ∧ sortedSnaps cs = true ∧ firstAtZero cs = true := by
+  decide +kernel
+
 /-- non-vacuity of `bms_times_partial`: a two-change tempo list satisfying every hypothesis (grid 4) -/
 example :
     let c0 : BcSnap := ⟨120, 4, ⟨0, 0, some 4⟩⟩
